@@ -10,7 +10,7 @@ import ast
 import copy
 
 from . import contracts
-from .terms import (NONE, const, is_const, is_int, is_seq, plain_seq, fold_bin, mk_sub, canon, walk, show)
+from .terms import (NONE, const, is_const, is_int, is_seq, plain_seq, fold_bin, mk_sub, canon, walk, show, subst)
 
 BIN = {ast.Add: "+", ast.Sub: "-", ast.Mult: "*", ast.Div: "/", ast.FloorDiv: "//", ast.Mod: "%", ast.Pow: "**",
        ast.BitAnd: "&", ast.BitOr: "|", ast.BitXor: "^", ast.MatMult: "@", ast.LShift: "<<", ast.RShift: ">>"}
@@ -375,6 +375,16 @@ class Evaluator:
             if len(res) == 1 and res[0][2] is None and res[0][0] is st:
                 return res[0][1]
             raise Unsupported("helper %s could not be looked through" % g.qual)
+        if (isinstance(n.func, ast.Name) and n.func.id == "map" and len(n.args) == 2 and not n.keywords and isinstance(n.args[0], (ast.Name, ast.Attribute))
+                and not isinstance(n.args[1], ast.Starred) and self.ev(n.func, st) == ("glob", "builtins.map")):
+            # map(f, s) is the generator (f(x) for x in s)
+            var = "__map%d" % st.loopn[0]
+            call = ast.Call(func=n.args[0], args=[ast.Name(id=var, ctx=ast.Load())], keywords=[])
+            gen = ast.GeneratorExp(elt=call, generators=[ast.comprehension(target=ast.Name(id=var, ctx=ast.Store()), iter=n.args[1], ifs=[], is_async=0)])
+            for x in ast.walk(gen):
+                if x is not n.args[0] and x is not n.args[1] and not hasattr(x, "lineno"):
+                    ast.copy_location(x, n)
+            return self.comp("gen", gen, st)
         f = self.ev(n.func, st)
         args = self.expand_args(n.args, st)
         kws = []
@@ -494,8 +504,15 @@ class Evaluator:
             st_.loopn[0] += 1
             st2 = st_.fork()
             st2.events, st2.ordinals, st2.loopn = st_.events, st_.ordinals, st_.loopn
-            self.emit(st2, "loop-enter", (lid, it), n)
-            self.bind(g.target, ("elem", it, lid), st2, n)
+            if it[0] == "comp" and it[1] in ("list", "gen", "tuple") and not it[5]:
+                # a comprehension over an unfiltered comprehension is one comprehension over the inner sequence: the element is the inner
+                # element expression ([g(y) for y in (f(x) for x in s)]  ==  [g(f(x)) for x in s])
+                inner_elt, it = subst(it[2], {("elem", it[3], it[4]): ("elem", it[3], lid)}), it[3]
+                self.emit(st2, "loop-enter", (lid, it), n)
+                self.bind(g.target, inner_elt, st2, n)
+            else:
+                self.emit(st2, "loop-enter", (lid, it), n)
+                self.bind(g.target, ("elem", it, lid), st2, n)
             conds = tuple(self.ev(c, st2) for c in g.ifs)
             inner = rec(gens[1:], st2)
             self.emit(st2, "loop-exit", (lid,), n)
